@@ -5,15 +5,16 @@
      local delete               <- DeletionQuery::build / delete + NodeDeletionEntry::build
                                    (deletion.rs, authorisation_service.rs::validate_deletion)
      pull dst src days          <- LocalPeerService::synchronise_room -> synchronise_day  (peer_inbound_service.rs)
-        tombstones of the day   <- NodeDeletionEntry::get_entries (served in primary-key order
-                                   (deletion_date, id)), NodeDeletionEntry::with_previous_authors
-                                   (a HashMap keyed by row id: of several tombstones of one row in one
-                                   answer only the LAST survives), NodeDeletionEntry::delete_all
-                                   (DELETE FROM _node WHERE room_id=? AND id=?  — whatever version is
-                                   stored — then INSERT OR REPLACE of the tombstone)
+        tombstones of the day   <- NodeDeletionEntry::get_entries; GraphDatabaseService::delete_nodes hands
+                                   them on in batches with at most one record per row id, so EVERY record
+                                   of an answer is stored (fix bb1bffb); NodeDeletionEntry::delete_all
+                                   removes the stored version only if it is the named one or an older one
+                                   (DELETE .. AND mdate <= ?, fix ad91329), then INSERT OR REPLACE of the
+                                   record
         rows of the day         <- Node::get_daily_nodes_for_room (id, mdate, signature of the rows whose
-                                   mdate lies in the day), Node::filter_existing (last writer wins on
-                                   (mdate, signature); consults _node only: NO tombstone lookup),
+                                   mdate lies in the day), Node::filter_existing: offered versions not
+                                   newer than a stored deletion record of the row are dropped (fix
+                                   ca69f52), then last writer wins on (mdate, signature) against _node;
                                    Node::filtered_by_room + NodeToInsert::write (update in place / insert)
    WHICH days a pull exchanges is decided by the daily-log comparison of synchronise_room_data /
    synchronise_history / synchronise_last_day; that comparison (hashes of _daily_log, history-hash
@@ -41,7 +42,11 @@ Definition same_key (a b : tomb) : bool := N.eqb (t_id a) (t_id b) && Z.eqb (t_d
 Definition find_node (x : uid) (l : list nrow) : option nrow := find (fun n => N.eqb (n_id n) x) l.
 Definition remove_node (x : uid) (l : list nrow) : list nrow := filter (fun n => negb (N.eqb (n_id n) x)) l.
 Definition put_node (l : list nrow) (n : nrow) : list nrow := n :: remove_node (n_id n) l.
-Definition tomb_put (l : list tomb) (t : tomb) : list tomb := t :: filter (fun u => negb (same_key u t)) l.
+Definition has_row (l : list nrow) (n : nrow) : bool := existsb (row_eqb n) l.
+Definition has_tomb (l : list tomb) (t : tomb) : bool := existsb (tomb_eqb t) l.
+(* INSERT OR REPLACE on the key (id, deletion date); writing a record that is already stored changes nothing *)
+Definition tomb_put (l : list tomb) (t : tomb) : list tomb :=
+  if has_tomb l t then l else t :: filter (fun u => negb (same_key u t)) l.
 
 (* ---- Node::filter_existing: keep the offered version iff nothing is stored under that id or the
         stored one is older, or as old with a smaller signature ---- *)
@@ -50,50 +55,30 @@ Definition newer (o e : nrow) : bool :=
 Definition wanted (stored : list nrow) (o : nrow) : bool :=
   match find_node (n_id o) stored with None => true | Some e => newer o e end.
 
-(* the repair of C11 (requests/C11-fix-1.diff): also drop an offered version that is not newer than a
-   stored tombstone of that row.  [fixed = false] is the code as it is. *)
+(* ca69f52: an offered version that is not newer than a stored deletion record of that row is
+   dropped before the comparison with _node *)
 Definition below_tomb (ts : list tomb) (o : nrow) : bool :=
   existsb (fun t => N.eqb (t_id t) (n_id o) && (n_mdate o <=? t_mdate t)) ts.
 
 Definition on_day (d : Z) (l : list nrow) : list nrow := filter (fun n => Z.eqb (day (n_mdate n)) d) l.
 Definition tombs_on_day (d : Z) (l : list tomb) : list tomb := filter (fun t => Z.eqb (day (t_ddate t)) d) l.
 
-(* with_previous_authors: one answer is folded into a HashMap keyed by id, later entries overwrite
-   earlier ones; entries arrive ordered by (deletion_date, id): the greatest deletion date survives *)
-Definition dedup_tombs (ts : list tomb) : list tomb :=
-  filter (fun t => forallb (fun u => negb (N.eqb (t_id u) (t_id t)) || (t_ddate u <=? t_ddate t)) ts) ts.
-
+(* ad91329: a deletion record removes the version it names or an older one (DELETE .. AND mdate <= ?);
+   bb1bffb: every record of an answer is stored (batches with one record per row id) *)
+Definition covered (t : tomb) (n : nrow) : bool := N.eqb (n_id n) (t_id t) && (n_mdate n <=? t_mdate t).
 Definition apply_tomb (r : replica) (t : tomb) : replica :=
-  {| nodes := remove_node (t_id t) (nodes r); tombs := tomb_put (tombs r) t |}.
+  {| nodes := filter (fun n => negb (covered t n)) (nodes r); tombs := tomb_put (tombs r) t |}.
 
-(* events of a run that the theorems and the known-finding classes talk about *)
-Record events := { ev_resurrect : bool;     (* a pull stored a row at or below a tombstone the receiver holds *)
-                   ev_othervers : bool;     (* a tombstone removed a stored version other than the one it names *)
-                   ev_collapse : bool;      (* two tombstones of one row in one answer: one was dropped *)
-                   ev_guard : bool }.       (* a local step outside the modelled envelope (see [step]) *)
-Definition no_events : events := {| ev_resurrect := false; ev_othervers := false; ev_collapse := false; ev_guard := false |}.
-Definition ev_or (a b : events) : events :=
-  {| ev_resurrect := ev_resurrect a || ev_resurrect b; ev_othervers := ev_othervers a || ev_othervers b;
-     ev_collapse := ev_collapse a || ev_collapse b; ev_guard := ev_guard a || ev_guard b |}.
+(* synchronise_day for one (entity, day): returns the receiver and the number of rows requested
+   (Query::Nodes) *)
+Definition sync_day (src : replica) (acc : replica * N) (d : Z) : replica * N :=
+  let '(dst, cnt) := acc in
+  let dst1 := fold_left apply_tomb (tombs_on_day d (tombs src)) dst in
+  let fetch := filter (fun o => wanted (nodes dst1) o && negb (below_tomb (tombs dst1) o)) (on_day d (nodes src)) in
+  ({| nodes := fold_left put_node fetch (nodes dst1); tombs := tombs dst1 |}, (cnt + N.of_nat (length fetch))%N).
 
-(* synchronise_day for one (entity, day): returns the receiver, the number of rows requested
-   (Query::Nodes) and the events *)
-Definition sync_day (fixed : bool) (src : replica) (acc : replica * N * events) (d : Z) : replica * N * events :=
-  let '(dst, cnt, ev) := acc in
-  let offered_t := tombs_on_day d (tombs src) in
-  let ts := dedup_tombs offered_t in
-  let other := existsb (fun t => match find_node (t_id t) (nodes dst) with
-                                 | Some e => negb (Z.eqb (n_mdate e) (t_mdate t)) | None => false end) ts in
-  let dst1 := fold_left apply_tomb ts dst in
-  let fetch := filter (fun o => wanted (nodes dst1) o && (negb fixed || negb (below_tomb (tombs dst1) o)))
-                      (on_day d (nodes src)) in
-  ({| nodes := fold_left put_node fetch (nodes dst1); tombs := tombs dst1 |},
-   (cnt + N.of_nat (length fetch))%N,
-   ev_or ev {| ev_resurrect := existsb (below_tomb (tombs dst1)) fetch; ev_othervers := other;
-               ev_collapse := negb (Nat.eqb (length ts) (length offered_t)); ev_guard := false |}).
-
-Definition pull_replica (fixed : bool) (dst src : replica) (days : list Z) : replica * N * events :=
-  fold_left (sync_day fixed src) days (dst, 0%N, no_events).
+Definition pull_replica (dst src : replica) (days : list Z) : replica * N :=
+  fold_left (sync_day src) days (dst, 0%N).
 
 (* ---- the system: peers 0 .. n-1 ---- *)
 Definition sys := list replica.
@@ -119,38 +104,36 @@ Definition op_peer (o : sop) : N :=
 Definition mentions (x : uid) (r : replica) : bool :=
   existsb (fun n => N.eqb (n_id n) x) (nodes r) || existsb (fun t => N.eqb (t_id t) x) (tombs r).
 
-(* one step: new system, the flag the harness observes (1 = done / number of rows requested), events.
-   ev_guard marks what the envelope of the theorems excludes: a Create that reuses an id the peer
-   already knows, an Update whose clock is behind the stored version. *)
-Definition step (fixed : bool) (S : sys) (o : sop) : sys * Z * events :=
+(* one step: new system, the flag the harness observes (1 = done / number of rows requested), and
+   whether the step leaves the envelope of the theorems: a Create that reuses an id the peer already
+   knows (the code draws fresh uids), an Update whose clock is behind the stored version. *)
+Definition step (S : sys) (o : sop) : sys * Z * bool :=
   match o with
   | Create p x t sg =>
       let r := get p S in
       (set p {| nodes := put_node (nodes r) {| n_id := x; n_mdate := t; n_sig := sg |}; tombs := tombs r |} S, 1,
-       {| ev_resurrect := false; ev_othervers := false; ev_collapse := false; ev_guard := mentions x r |})
+       mentions x r)
   | Update p x t sg =>
       let r := get p S in
       match find_node x (nodes r) with
       | Some e => (set p {| nodes := put_node (nodes r) {| n_id := x; n_mdate := t; n_sig := sg |}; tombs := tombs r |} S, 1,
-                   {| ev_resurrect := false; ev_othervers := false; ev_collapse := false; ev_guard := t <? n_mdate e |})
-      | None => (S, 0, no_events)          (* UnknownEntity: nothing written *)
+                   t <? n_mdate e)
+      | None => (S, 0, false)          (* UnknownEntity: nothing written *)
       end
   | Delete p x t =>
       let r := get p S in
       match find_node x (nodes r) with
       | Some e => (set p {| nodes := remove_node x (nodes r);
-                            tombs := tomb_put (tombs r) {| t_id := x; t_mdate := n_mdate e; t_ddate := t |} |} S, 1, no_events)
-      | None => (S, 0, no_events)          (* nothing selected: no tombstone *)
+                            tombs := tomb_put (tombs r) {| t_id := x; t_mdate := n_mdate e; t_ddate := t |} |} S, 1, false)
+      | None => (S, 0, false)          (* nothing selected: no tombstone *)
       end
   | Pull d s days =>
-      let '(r, cnt, ev) := pull_replica fixed (get d S) (get s S) days in
-      (set d r S, Z.of_N cnt, ev)
+      let '(r, cnt) := pull_replica (get d S) (get s S) days in
+      (set d r S, Z.of_N cnt, false)
   end.
 
 (* ---- what a complete log comparison has to select: the days of the source's row versions that
         filter_existing would let through, and of the source's tombstones the receiver lacks ---- *)
-Definition has_row (l : list nrow) (n : nrow) : bool := existsb (row_eqb n) l.
-Definition has_tomb (l : list tomb) (t : tomb) : bool := existsb (tomb_eqb t) l.
 Definition needed_days (dst src : replica) : list Z :=
   map (fun n => day (n_mdate n)) (filter (wanted (nodes dst)) (nodes src)) ++
   map (fun t => day (t_ddate t)) (filter (fun t => negb (has_tomb (tombs dst) t)) (tombs src)).
@@ -176,35 +159,36 @@ Definition enc_dump (r : replica) : list Z :=
   Z.of_nat (length (tombs r)) :: flat_map (fun t => [zn (t_id t); t_mdate t; t_ddate t]) (sort_tombs (tombs r)).
 
 (* the run: observation = for every step [flag] ++ dump of the peer the step touched *)
-Fixpoint run_obs (fixed : bool) (S : sys) (ops : list sop) : list Z :=
+Fixpoint run_obs (S : sys) (ops : list sop) : list Z :=
   match ops with
   | [] => []
-  | o :: rest => let '(S', flag, _) := step fixed S o in
-                 (flag :: enc_dump (get (op_peer o) S')) ++ run_obs fixed S' rest
+  | o :: rest => let '(S', flag, _) := step S o in
+                 (flag :: enc_dump (get (op_peer o) S')) ++ run_obs S' rest
   end.
-Fixpoint run_sys (fixed : bool) (S : sys) (ops : list sop) : sys :=
-  match ops with [] => S | o :: rest => run_sys fixed (fst (fst (step fixed S o))) rest end.
-Fixpoint run_events (fixed : bool) (S : sys) (ops : list sop) : events :=
+Fixpoint run_sys (S : sys) (ops : list sop) : sys :=
+  match ops with [] => S | o :: rest => run_sys (fst (fst (step S o))) rest end.
+(* some step of the run leaves the envelope (see [step]) *)
+Fixpoint run_guard (S : sys) (ops : list sop) : bool :=
   match ops with
-  | [] => no_events
-  | o :: rest => let '(S', _, ev) := step fixed S o in ev_or ev (run_events fixed S' rest)
+  | [] => false
+  | o :: rest => snd (step S o) || run_guard (fst (fst (step S o))) rest
   end.
-Fixpoint run_flags (fixed : bool) (S : sys) (ops : list sop) : list Z :=
+Fixpoint run_flags (S : sys) (ops : list sop) : list Z :=
   match ops with
   | [] => []
-  | o :: rest => let '(S', flag, _) := step fixed S o in flag :: run_flags fixed S' rest
+  | o :: rest => let '(S', flag, _) := step S o in flag :: run_flags S' rest
   end.
 (* every pull of the run selected at least the days a complete comparison selects *)
-Fixpoint run_complete (fixed : bool) (S : sys) (ops : list sop) : bool :=
+Fixpoint run_complete (S : sys) (ops : list sop) : bool :=
   match ops with
   | [] => true
   | o :: rest =>
       (match o with Pull d s days => days_cover days (needed_days (get d S) (get s S)) | _ => true end)
-      && run_complete fixed (fst (fst (step fixed S o))) rest
+      && run_complete (fst (fst (step S o))) rest
   end.
 (* the systems after each step *)
-Fixpoint run_trace (fixed : bool) (S : sys) (ops : list sop) : list sys :=
-  match ops with [] => [] | o :: rest => let S' := fst (fst (step fixed S o)) in S' :: run_trace fixed S' rest end.
+Fixpoint run_trace (S : sys) (ops : list sop) : list sys :=
+  match ops with [] => [] | o :: rest => let S' := fst (fst (step S o)) in S' :: run_trace S' rest end.
 
 (* ---- decoding an observation (used by the property oracles, which judge what the
         IMPLEMENTATION showed) ---- *)
@@ -259,3 +243,17 @@ Definition same_tombs (a b : replica) : bool := tombs_subset (tombs a) (tombs b)
 Definition agree (a b : replica) : bool := same_rows a b && same_tombs a b.
 Fixpoint all_agree (S : sys) : bool :=
   match S with a :: ((b :: _) as t) => agree a b && all_agree t | _ => true end.
+
+(* a pull that moves nothing: every selected day, exchanged with the receiver as it is, requests no
+   row and leaves the receiver as it is *)
+Definition replica_eqb (a b : replica) : bool :=
+  list_eqb row_eqb (nodes a) (nodes b) && list_eqb tomb_eqb (tombs a) (tombs b).
+Definition day_still (dst src : replica) (d : Z) : bool :=
+  let '(r, c) := sync_day src (dst, 0%N) d in N.eqb c 0 && replica_eqb r dst.
+Definition pull_still (dst src : replica) (days : list Z) : bool := forallb (day_still dst src) days.
+Fixpoint still (S : sys) (ops : list sop) : bool :=
+  match ops with
+  | [] => true
+  | Pull d s days :: rest => pull_still (get d S) (get s S) days && still S rest
+  | _ :: _ => false
+  end.
